@@ -17,8 +17,7 @@ import (
 type fontSrc struct {
 	name, file string
 	bytes      []byte
-	fr         *fontread.Font // x/image reader of the source program
-	tt         *fontread.TT   // exact TrueType reader (nil for CFF)
+	fr         *fontread.Font // x/image reader of the source program (plus the exact readers)
 }
 
 var fontMenu = []*fontSrc{
@@ -42,12 +41,8 @@ func (f *fontSrc) load() *fontSrc {
 	if len(fr.Patched) != 0 {
 		panic(fmt.Sprintf("source font %s is not read as it is: %v", f.file, fr.Patched))
 	}
-	if !fr.IsCFF {
-		tt, err := fontread.OpenTT(fr.Dir)
-		if err != nil {
-			panic(err)
-		}
-		f.tt = tt
+	if _, err := fr.ExactOutline(0); err != nil {
+		panic(fmt.Sprintf("source font %s: exact reader: %v", f.file, err))
 	}
 	f.bytes, f.fr = b, fr
 	return f
@@ -63,13 +58,11 @@ func (f *fontSrc) fresh() *canvas.Font {
 	return cf
 }
 
-// exactOutline is the outline of a source glyph in font units: the exact TrueType reader for
-// TrueType programs (x/image truncates implied points), x/image for CFF.
+// exactOutline is the outline of a source glyph in font units read by the exact readers of
+// internal/fontread (x/image truncates implied TrueType points and rounds fixed-point charstring
+// operands, which is fine for comparing two programs but not for 1e-6 of the size).
 func (f *fontSrc) exactOutline(gid int) ([]fontread.Seg, error) {
-	if f.tt != nil {
-		return f.tt.Outline(gid)
-	}
-	return f.fr.Outline(gid)
+	return f.fr.ExactOutline(gid)
 }
 
 // ---------------------------------------------------------------------------------------------
